@@ -134,11 +134,19 @@ def gen_cat_spec(seed):
         nres = max(nres, int(rng.integers(3, 6)))
         vary = False
     cap_next = None
+    # one case in six is directed: restart 1 recovers from an earlier checkpoint of
+    # restart 0 and is killed before restart 0's last output, same out_every
+    directed = int(seed) % 6 == 4 and not change_once
+    if directed:
+        nres = max(nres, 2)
+        vary = False
     for r in range(nres):
         length = int(rng.integers(1 if change_once else 0, 4))
-        if cap_next is not None and rng.random() < 0.6:
+        if cap_next is not None and (rng.random() < 0.6 or (directed and r == 1)):
             length = min(length, cap_next)        # ... and stops before the earlier one did
         cap_next = None
+        if directed and r == 0:
+            length = 3
         bs = 2 ** (nlev - 1) * 4
         if change_once and r == 1:
             strides = {rl: (2 * v if 2 * v <= bs else v // 2 or 1) for rl, v in strides.items()}
@@ -152,7 +160,7 @@ def gen_cat_spec(seed):
         if nlev >= 2 and length and rng.random() < 0.25:
             k = int(rng.integers(1, max(2, len(its[nlev - 1]) - 1)))
             its[nlev - 1] = its[nlev - 1][k:] or its[nlev - 1][-1:]
-        if r and nres > 2 and rng.random() < 0.12:
+        if r and nres > 2 and rng.random() < 0.12 and not (directed and r == 1):
             # a restart that wrote checkpoints but no 3D output at all
             its = {rl: [] for rl in range(nlev)}
         rs = dict(its=its, rtag=r + 1)
@@ -166,10 +174,10 @@ def gen_cat_spec(seed):
         restarts.append(rs)
         if length == 0 and rng.random() < 0.5:
             pass        # died right after its first output: the next one starts from the same point
-        elif length >= 2 and rng.random() < 0.4:
+        elif length >= 2 and (rng.random() < 0.4 or (directed and r == 0)):
             # the next restart recovers from an earlier checkpoint of this one
             # (and may well stop before this one did)
-            k_ = int(rng.integers(1, length))
+            k_ = 1 if (directed and r == 0) else int(rng.integers(1, length))
             start += k_ * bs
             cap_next = max(length - k_ - 1, 1)
         else:
